@@ -13,10 +13,24 @@ included) plus the rows / ORM object dumps / error class.  Plus the implication
 a compiled form populated by one statement hands out the *other* statement's
 parameter values" on five dialects.
 
-Mutations caught (each in a private copy, ``VF_REPO=/tmp/wt-stmt1 ./check C02``):
-see the list at the end of this docstring (filled in after the detection runs).
+Failing steps are minimised before they are reported (shortest history, plain dict cache if it suffices, every
+feature deviation reset to base while the same part of the observation keeps differing), so one root cause gives
+one signature ``cached <SQL|parameters|rows|outcome> differ from uncached: exec <stmt> after [<history>] cache=<kind>``.
+Generated (anonymous) bind names are by design not part of the cache key; the implication check compares SQL and
+bind names up to a consistent renaming of exactly those names.
 
-MUTATIONS
+Mutations caught (each alone in a private copy, ``VF_REPO=/tmp/wt-stmt1 ./check C02 --no-evidence``; the clean
+tree gives only the reported known-finding signatures, each mutation adds new ones):
+  M1  sql/selectable.py  Join._traverse_internals: ("isouter", dp_boolean) dropped        -> +7  (warm-cache SQL of join[join=outer] after join[])
+  M2  sql/elements.py    BindParameter._gen_cache_key: literal_execute dropped from key   -> +33
+  M3b orm/strategy_options.py _LoadElement._traverse_internals: "strategy" dropped        -> +55 (selectin/joined/... collapse)
+  M3c orm/strategy_options.py _LoadElement._traverse_internals: "_extra_criteria" dropped -> +7  (A.bs.and_(...) vs A.bs)
+  M4  sql/elements.py    _compile_w_cache: tuple(column_keys) dropped from the cache key  -> +8  (executemany with other keys)
+  M5b sql/elements.py    Label._cache_key_traversal: "name" dropped                       -> +32
+  M6  sql/elements.py    _FrameClause._traverse_internals: "upper_bind" dropped           -> +4  (cached form hands the wrong ROWS/RANGE bound)
+  M8  sql/elements.py    _compile_w_cache: bool(schema_translate_map) dropped from key    -> caught (see report)
+Not effective (equivalent mutants, the key is redundant there): "path" dropped from _LoadElement._traverse_internals
+(Load.path still distinguishes), "name" dropped from Label._traverse_internals (Label has its own _cache_key_traversal).
 """
 from __future__ import annotations
 
@@ -35,9 +49,10 @@ META = dict(
     technique="explicit-state exploration of execution histories over a shared compiled cache, differential against "
     "the uncached route; exhaustive key-collision implication check on 5 dialects",
     design_ref="DESIGN.md §5 C02",
-    level_text="Every statement of the stmtgen family (17 base shapes x feature table, all assignments within d feature "
-    "deviations of the base: Core select/join/subquery/CTE/set-op/text/DML+RETURNING/executemany, statement-level "
-    "params(), ORM entity selects with loader options, legacy Query, ORM-enabled DML) is executed after every history "
+    level_text="Every statement of the stmtgen family (20 base shapes x feature table, all assignments within d feature "
+    "deviations of the base: Core select/join/subquery/CTE/set-op/text/33 expression constructs/DML+RETURNING/upsert/"
+    "executemany, statement-level params(), ORM entity selects with loader options and paths, legacy Query, "
+    "ORM-enabled DML) is executed after every history "
     "of other family members on a shared cache whose state is restored exactly (public compiled_cache option): all "
     "ordered pairs of the whole d=1 family (quick), plus all ordered pairs within a shape at d=2 and all triples within "
     "a shape at d=1 (thorough), each also on a one-entry LRU with the first statement re-executed after eviction, plus "
@@ -58,10 +73,10 @@ META = dict(
         "single-threaded use of one engine",
     ],
     bounds=dict(
-        quick="family d=1, all ordered pairs (dict cache) + (s1,s2,s1) on a 1-entry LRU; 12 rotated long histories x 2 "
-        "passes on engine caches 500 and 2; key implication over all pairs of the d=2 family x 5 dialects",
-        thorough="quick + family d=2 all ordered pairs within a shape (dict cache and 1-entry LRU) + d=1 all triples "
-        "within a shape; key implication over all pairs of the d=3 family (sel: d=2) x 5 dialects",
+        quick="family d=1, all ordered pairs (dict cache) + within a shape (s1,s2,s1) on a 1-entry LRU; 12 rotated long "
+        "histories x 2 passes on engine caches 500 and 2; key implication over all pairs of the d=2 family x 5 dialects",
+        thorough="quick + family d=2 all ordered pairs within a shape (dict cache) + d=1 all triples within a shape; "
+        "key implication over all pairs of the d=3 family (sel: d=2) x 5 dialects",
     ),
 )
 SHARD_TIMEOUT = dict(quick=300, thorough=2400)
@@ -293,7 +308,10 @@ def shards(tier, seed):
             parts2 = max(1, (n * n) // 12000)
             for p in range(parts2):
                 out.append(("pairs", 2, sh, p, parts2))
-            out.append(("triples", sh))
+            n1 = len(list(sg.neighbours(sh, 1)))
+            tparts = max(1, (n1 ** 3) // 15000)
+            for p in range(tparts):
+                out.append(("triples", sh, p, tparts))
             out.append(("impl", sh, 2 if sh == "sel" else 3))
     return out
 
@@ -343,8 +361,8 @@ def run_pairs(shard, tier, rec):
                         rec.sample(dict(history=[id1, id2], cache="dict", served_from_entry_of=id1, cursor=[list(x) for x in w.baseline(rec, s2)[0]][:2]))
             rec.state(("dict", id1, id2 if added else None, len(c2)))
             npairs += 1
-            if s1[0] != s2[0]:
-                continue
+            if s1[0] != s2[0] or d > 1:
+                continue  # the eviction histories are run on the d=1 family, within a shape
             # one-entry LRU, within a shape: s1, s2 (evicts s1's entry unless it hits), then s1 again
             l2 = _lru(1, lsnap)
             _step(rec, w, [s1], s2, l2, "lru1")
@@ -357,11 +375,13 @@ def run_pairs(shard, tier, rec):
 
 
 def run_triples(shard, tier, rec):
-    _, shape = shard
+    _, shape, part, parts = shard
     w = World()
     fam = sg.family(1, [shape])
     n = 0
-    for s1 in fam:
+    for i1, s1 in enumerate(fam):
+        if i1 % parts != part:
+            continue
         id1 = sg.sid(*s1)
         c1 = {}
         _step(rec, w, [], s1, c1, "dict")
